@@ -335,6 +335,44 @@ def arg_wiring_rule(index, rep, rid, modules):
     return n
 
 
+def option_handed_down_rule(index, rep, rid, modules):
+    """An option that both an object and a component it builds take under the same name is handed down: a method that
+    receives `opt` and constructs a repository class whose constructor also has a parameter `opt` passes it (otherwise
+    the component runs on its own default whatever the caller asked for)."""
+    n = 0
+    by_name = {}
+    for k in index.classes.values():
+        by_name.setdefault(k.name, []).append(k)
+    for m in modules:
+        for f in index.functions_in_module(m):
+            if f.cls is None:
+                continue
+            own = [p_ for p_ in f.params if p_ != "self"]
+            if not own:
+                continue
+            for c in calls_in(f.node):
+                ks = by_name.get(call_name(c), [])
+                if len(ks) != 1 or (isinstance(c.func, ast.Attribute) and norm(c.func.value) == "self"):
+                    continue
+                init = None
+                for b in index.mro(ks[0]):
+                    if "__init__" in b.methods:
+                        init = b.methods["__init__"]
+                        break
+                if init is None or any(kw.arg is None for kw in c.keywords) or any(isinstance(a, ast.Starred) for a in c.args):
+                    continue
+                kp = [p_ for p_ in init.params if p_ != "self"]
+                given = {kw.arg for kw in c.keywords} | set(kp[:len(c.args)])
+                shared = [p_ for p_ in own if p_ in kp]
+                if not shared:
+                    continue
+                n += 1
+                miss = [p_ for p_ in shared if p_ not in given]
+                rep.check(not miss, rid, f.qualname, "option %s not handed down to %s" % (miss, ks[0].name), fn_where(f, c), "%s hands %s down to %s" % (f.qualname, shared, ks[0].name),
+                          "%s takes %s and builds a %s, whose constructor has the same parameter(s), without passing %s on: the component keeps its own default (use_tree_weights=True, say), so what the caller asked of the owner is stored on the owner and silently ignored where the work is done" % (f.qualname, miss, ks[0].name, miss))
+    return n
+
+
 def save_restore_rule(rep, rid, fi):
     """`old = X.a; X.a = <new>; ...; X.a = old`: the temporary setting is undone on every normal path from where it was made."""
     cfg = cfg_of(fi)
@@ -1114,6 +1152,7 @@ def generic_rules(prop, index, rep):
     rep.rule(rid, "argument wiring in the property's modules: an argument named like one of the callee's parameters is passed for that parameter (no swapped positional arguments, no `a=b, b=a` keyword crossings)")
     with rep.section(rid):
         nw = arg_wiring_rule(index, rep, rid, mods)
+        nw += option_handed_down_rule(index, rep, rid, mods)
         rep.ob(rid, "src/dendropy", "%d resolved calls in the property's modules examined" % nw, True)
         rep.floor(rid, "resolved calls in the property's modules", 50, nw)
     rid3 = "R%s.N" % prop[1:]
